@@ -13,6 +13,7 @@ func init() {
 	register("C01", "well-foundedness and relevance of the derived monad combinators", func(c *core.Ctx) {
 		Strat(c, "R-STRAT")
 		Stale(c, "R-STALE", []*packages.Package{c.Pkg("fp"), c.Pkg("statet")}, 25, 15)
+		Unit(c, "R-UNIT", 8)
 		Rel(c, "R-REL", monadPackages(c), func(p *packages.Package, fd *ast.FuncDecl, fn *types.Func) bool { return true }, nil, 400)
 	})
 }
